@@ -2,8 +2,11 @@
 # usage: tools/try_seed.sh <worktree> <prop> [tier]   -- run a check against a mutated worktree
 wt=$1; prop=$2; tier=${3:-quick}
 cd /verif
+cp evidence/$prop.json /tmp/evidence_backup_$prop.json 2>/dev/null
 VERIF_REPO=$wt ./check $prop --tier $tier 2>&1 | grep -v conda.cli | tail -6
 echo "exit=$?"
+# evidence files must describe runs against /repo itself: restore
+mv /tmp/evidence_backup_$prop.json evidence/$prop.json 2>/dev/null
 # restore generated files from the real repo
 python3 - <<PY
 import sys; sys.path.insert(0,'/verif/harness')
